@@ -71,6 +71,7 @@ func batchCmd(args []string) {
 	profile := fs.String("profile", "{}", "JSON overriding gen.Options")
 	caseFile := fs.String("case", "", "use this case (JSON with case+meta) instead of generating one")
 	noExec := fs.Bool("noexec", false, "stop after Stage A")
+	opsFile := fs.String("ops", "", "execute these operations (ops.jsonl of another batch) instead of generating operations")
 	fs.Parse(args)
 	self, _ := os.Executable()
 	t0 := time.Now()
@@ -176,7 +177,13 @@ func batchCmd(args []string) {
 		status["error"] = firstLines(b.BuildErr, 12)
 		return
 	}
-	ops, err := b.GenOps(*seed*31+uint64(*index), *scale)
+	var ops []byte
+	if *opsFile != "" {
+		// the operations of another batch (same message types, e.g. the same descriptor with its declarations permuted)
+		ops, err = ioutil.ReadFile(*opsFile)
+	} else {
+		ops, err = b.GenOps(*seed*31+uint64(*index), *scale)
+	}
 	if err != nil {
 		status["stage"] = "genops"
 		status["error"] = err.Error()
